@@ -45,7 +45,8 @@ Definition with_steps (d : tdecl) (ms : list (list step)) : tdecl :=
 Fixpoint env_seen (E : env) (p : proc) : env :=
   match E, p with
   | d :: E', Ready m :: p' => with_steps d m :: env_seen E' p'
-  | d :: E', Uninit :: p' => d :: env_seen E' p'       (* never read before its touch *)
+  (* a cell that was never initialised holds nothing: reading it yields no declaration at all *)
+  | d :: E', Uninit :: p' => mkD [] (DRecord (mkR [] [])) :: env_seen E' p'
   | _, _ => E
   end.
 
